@@ -619,6 +619,12 @@ func (fc *funcContext) translateExpr(expr ast.Expr) *expression {
 			}
 			return fc.formatExpr("%e.%s", e.X, strings.Join(fields, "."))
 		case types.MethodVal:
+			if recvType := sel.Obj().Type().(*types.Signature).Recv().Type(); !types.IsInterface(recvType) {
+				if _, isStruct := recvType.Underlying().(*types.Struct); isStruct {
+					// A value receiver of struct type: each call of the method value gets its own copy.
+					return fc.formatExpr(`$methodValCopy(%s, "%s", %s)`, fc.makeReceiver(e), sel.Obj().(*types.Func).Name(), fc.typeName(recvType))
+				}
+			}
 			return fc.formatExpr(`$methodVal(%s, "%s")`, fc.makeReceiver(e), sel.Obj().(*types.Func).Name())
 		case types.MethodExpr:
 			fc.pkgCtx.DeclareDCEDep(sel.Obj(), inst.TNest, inst.TArgs)
